@@ -525,6 +525,15 @@ class SGen:
             if v is None: self.bad(n, "memset with a non-constant byte")
             if d[0] is None: self.bad(n, "memset with a null pointer")
             self.emit("SFill %d (%s) (%s) %d" % (d[0], d[1], k, v & 255)); return None
+        if name in getattr(self, "procs", {}):
+            # a callee kept as a PROCEDURE CALL (coq/WholeProc.v): f(out, in, ks) with a block-sized output and input and the
+            # whole key-schedule object as its second data argument; its meaning is supplied by the call interpretation
+            fno, bs, kn = self.procs[name]
+            o = self.ptr(args[0]); i = self.ptr(args[1]); kk = self.ptr(args[2])
+            if o[0] is None or i[0] is None or kk[0] is None: self.bad(n, "procedure call with a null pointer")
+            self.emit("SDStore %d (%s) %d (DCall %d (DConcat [DLoad %d (%s) %d; DLoad %d (%s) %d]))"
+                      % (o[0], o[1], bs, fno, i[0], i[1], bs, kk[0], kk[1], kn))
+            return None
         if name in self.opaque:
             e, w, s = self.data(args[0])
             return ("data", "DCall %d (%s)" % (self.opaque[name], e), w, s)
@@ -927,13 +936,13 @@ class SGen:
         return conv_p("PBin %s %d (%s) (%s)" % (name, cw, a, b), cw, cs, w)
 
 
-def translate_function(tu, fname, pubfields, alias=None, sizes=None, extra_pub_params=(), ptrfields=None, indirect=None):
+def translate_function(tu, fname, pubfields, alias=None, sizes=None, extra_pub_params=(), ptrfields=None, indirect=None, procs=None):
     """Returns dict: regions, fields, params (public parameter locals in order), code (SIR statement list as a Coq term), ..."""
     f = tu.funcs[fname]
     datavars = set()
     for attempt in range(64):
         g = SGen(tu, pubfields, datavars)
-        g.ptrfields = ptrfields or {}; g.indirect = indirect or {}
+        g.ptrfields = ptrfields or {}; g.indirect = indirect or {}; g.procs = procs or {}
         try:
             info = _translate(g, f, alias or {}, sizes or {})
             return info
